@@ -194,6 +194,8 @@ func Run(c *hx.Ctx) {
 		binary.BigEndian.PutUint16(nb[f.Fields[1].Off:], uint16(len(blk)))
 		dec(f.Proto, nb, "bolt-bad-block")
 	}
+	// containment: an in-process MOSN keeps answering a probe while other connections send malformed streams
+	containRun(c)
 	// HTTP/2 server-side frame extraction (incl. payload parsers and HPACK) on malformed frames
 	h2Malformed(c)
 	// the header block decoder alone
